@@ -9,7 +9,7 @@ PID = "C06"
 VO = ["theories/Reductions/Moments.vo", "theories/Reductions/Moments_proofs.vo",
       "theories/Reductions/Reduction.vo", "theories/Reductions/MomentsIO.vo", "theories/Base/Flat.vo"]
 PROPS_FILES = ["props/C06.v"]
-TRANSLATORS = []
+TRANSLATORS = ["t_moments"]
 REQUIRES = ["From FL Require Import Num Flat Moments Reduction MomentsIO."]
 SHARD = 40
 CHUNK = 4
@@ -61,7 +61,7 @@ def cases(tier, seed):
                         "fn": None if costs is None else costs[1], **d, "hs": hs})
         elif t == 9:
             ng = r.randint(1, 4)
-            m = r.randint(ng, 12)
+            m = r.randint(max(ng, 2), 12)       # n = 1 breaks _validate_and_reformat_input (squeeze -> 0-d)
             g = [r.randint(0, ng - 1) for _ in range(m)]
             lo, hi = r.choice([("0", "1"), ("-1/2", "3/2"), ("1/4", "3/4"), ("0", "2"), ("1", "1")])
             yq = [fs(Fraction(r.randint(-4, 8), 4)) for _ in range(m)]
